@@ -162,8 +162,8 @@ static std::string c12_scenario(int sc, coop::Sched& s, uint64_t seed, std::stri
         run_bodies(s, {[&] { d.reject(TestExc(11)); }, [&] { q.then(okCb, rejCb); }}, seed);
         return c12_judge(o, 0, 1, 0, 11);
     }
-    case 13: {  // S14 several continuations attached beforehand (a full list: 2 or 4), resolve || then(one more): the list grows while it is being walked
-        static int flip = 0; int pre = (flip++ % 2) ? 4 : 2;
+    case 13: case 14: {  // S14 several continuations attached beforehand (a full list: 2 or 4), resolve || then(one more): the list grows while it is being walked
+        static int flip = 0; int pre = sc == 14 ? 4 : g_opts.mode == "dfs" ? 2 : (flip++ % 2) ? 4 : 2;   // (systematic mode: scenario 14 is the 4-attached variant)
         name = "S14-resolve-with-" + std::to_string(pre) + "-attached|then";
         Async::Deferred<int> d; Async::Promise<int> p([&](Async::Deferred<int> dd) { d = std::move(dd); });
         std::atomic<int> preOk{0}, preBad{0};
@@ -188,6 +188,34 @@ static long g_skip = -1;
 static void run_c12(long cases) {
     coop::Sched s;
     std::map<std::string, long> perScenario;
+    if (g_coop && g_opts.mode == "dfs") {
+        // systematic: every schedule of each scenario with at most pb preemptions, depth-first by replaying a prefix of choices
+        int pb = (int)g_opts.num("preempt", 2);
+        for (int sc = g_opts.shard; sc < 15; sc += g_opts.nshards) {
+            std::vector<int> prefix; long done = 0; bool exhausted = false; std::string name;
+            for (;;) {
+                long i = 1000000L * (sc + 1) + done;
+                s.reset(sc == 4 || sc == 6 || sc == 9 || sc == 12 ? 3 : 2, g_opts.seed, 2, 0, 40);
+                s.dfsPrefix = prefix; s.preemptBound = pb; s.maxSteps = 4000;
+                set_case(i, Json().num("i", i).str("phase", "c12").num("scenario", sc).str("mode", "coop-systematic").done());
+                std::string sym = c12_scenario(sc, s, g_opts.seed, name);
+                g_evals++; done++;
+                if (s.dfsDiverged) count("systematic_runs_that_did_not_repeat_their_prefix");
+                if (s.overrun) count("inconclusive_step_bound");
+                else {
+                    if (s.stuck) sym = sym.empty() ? "deadlock" : sym + "+deadlock";
+                    g_distinct.add(name + "#" + std::to_string(coop::trace_hash(s)));
+                    if (!sym.empty()) violation("c12:" + name + ":" + sym, "scenario " + name + ": " + sym + " under schedule " + coop::trace_text(s, 120),
+                                                Json().num("i", i).num("scenario", sc).str("mode", "coop-systematic").str("schedule", coop::trace_text(s)).done());
+                }
+                std::vector<int> next; if (!s.next_prefix(next)) { exhausted = true; break; }
+                prefix.swap(next);
+                if (done >= cases) break;
+            }
+            count("systematic_schedules_" + name, done); count(std::string(exhausted ? "systematic_tree_exhausted_" : "systematic_tree_cut_at_budget_") + name + "_preemptions_" + std::to_string(pb));
+        }
+        return;
+    }
     for (long i = g_opts.shard; i < cases * g_opts.nshards; i += g_opts.nshards) {
         if (i <= g_skip) continue;
         if (!g_coop && ((i / g_opts.nshards) % 64) == 0) emit(Json().str("t", "progress").num("i", i).num("stride", 64L * g_opts.nshards).done());
@@ -217,17 +245,11 @@ struct Item { int prod; int seq; };
 static bool readable(int fd) { struct pollfd p{fd, POLLIN, 0}; return ::poll(&p, 1, 0) > 0 && (p.revents & POLLIN); }
 static void run_c13(long cases) {
     coop::Sched s;
-    for (long i = g_opts.shard; i < cases * g_opts.nshards; i += g_opts.nshards) {
-        if (i <= g_skip) continue;
-        if (!g_coop && ((i / g_opts.nshards) % 64) == 0) emit(Json().str("t", "progress").num("i", i).num("stride", 64L * g_opts.nshards).done());
-        uint64_t seed = g_opts.seed * 1000003ull + (uint64_t)i;
-        Rng r(seed);
-        int nprod = r.range(1, 3), npush = r.range(1, 3);
-        // free-running storm rounds: many pushes per producer, so that two producers really are inside push() at the same time
-        // (the cooperative scheduler only switches at hooks; a window between two un-hooked instructions needs real parallelism)
-        if (!g_coop && ((i / g_opts.nshards) % 256) == 3) { nprod = 3; npush = (int)g_opts.num("storm", 2000); }
-        int strat = (i % 3) == 0 ? 1 : 0;
+    int pb = (int)g_opts.num("preempt", 2);
+    // one schedule of the scenario (nprod producers x npush pushes against the framework's consumer pattern), judged
+    auto one = [&](long i, uint64_t seed, int nprod, int npush, int strat, const std::vector<int>* prefix) {
         s.reset(nprod + 1, seed, strat, 1 + (int)(i % 3), 30 * nprod * npush);
+        if (prefix) { s.dfsPrefix = *prefix; s.preemptBound = pb; s.maxSteps = 4000; }
         set_case(i, Json().num("i", i).str("phase", "c13").num("producers", nprod).num("pushes", npush).num("seed", (long long)g_opts.seed).done());
         Polling::Epoll poller;
         PollableQueue<Item> q;
@@ -257,7 +279,7 @@ static void run_c13(long cases) {
         g_evals++;
         std::string shape = std::to_string(nprod) + "x" + std::to_string(npush);
         count("schedules_" + shape);
-        if (g_coop && s.overrun) { count("inconclusive_step_bound"); q.unbind(poller); continue; }
+        if (g_coop && s.overrun) { count("inconclusive_step_bound"); q.unbind(poller); return; }
         // verdict
         std::string sym;
         std::map<int, int> nextSeq; std::set<std::pair<int, int>> seen;
@@ -276,11 +298,41 @@ static void run_c13(long cases) {
         if (g_coop) g_distinct.add(shape + "#" + std::to_string(coop::trace_hash(s))); else g_distinct.add(shape + "#" + std::to_string(i % 4096));
         if (!sym.empty())
             violation("c13:" + sym, shape + " producers x pushes: " + sym + " (popped " + std::to_string(popped.size()) + " of " + std::to_string(nprod * npush) + ")" + (g_coop ? " under schedule " + coop::trace_text(s, 160) : ""),
-                      Json().num("i", i).num("seed", (long long)g_opts.seed).str("shape", shape).str("mode", g_coop ? "coop" : "free").str("schedule", g_coop ? coop::trace_text(s) : "").done());
+                      Json().num("i", i).num("seed", (long long)g_opts.seed).str("shape", shape).str("mode", prefix ? "coop-systematic" : g_coop ? "coop" : "free").str("schedule", g_coop ? coop::trace_text(s) : "").done());
         if (g_coop && g_samples_left > 0 && (i % 997) == 13) { g_samples_left--; sample(Json().str("shape", shape).str("schedule", coop::trace_text(s, 200)).done()); }
         // drain what is left so that destruction is clean
         for (;;) { auto e = q.popSafe(); if (!e) break; }
         q.unbind(poller);
+    };
+    if (g_coop && g_opts.mode == "dfs") {
+        // systematic: every schedule of the shape with at most pb preemptions (a switch away from a thread that could go on), depth-first
+        // by replaying a prefix of choices; bounded by --cases schedules per shape, and the evidence says whether the tree was exhausted
+        static const int SHAPES[][2] = {{1, 1}, {1, 2}, {2, 1}, {1, 3}, {2, 2}, {3, 1}, {2, 3}, {3, 2}};
+        for (int sh = g_opts.shard; sh < 8; sh += g_opts.nshards) {
+            int nprod = SHAPES[sh][0], npush = SHAPES[sh][1]; std::string shape = std::to_string(nprod) + "x" + std::to_string(npush);
+            std::vector<int> prefix; long done = 0; bool exhausted = false;
+            for (;;) {
+                one(1000000L * (sh + 1) + done, g_opts.seed, nprod, npush, 2, &prefix);
+                done++;
+                if (s.dfsDiverged) count("systematic_runs_that_did_not_repeat_their_prefix");
+                std::vector<int> next; if (!s.next_prefix(next)) { exhausted = true; break; }
+                prefix.swap(next);
+                if (done >= cases) break;
+            }
+            count("systematic_schedules_" + shape, done); count(std::string(exhausted ? "systematic_tree_exhausted_" : "systematic_tree_cut_at_budget_") + shape + "_preemptions_" + std::to_string(pb));
+        }
+        return;
+    }
+    for (long i = g_opts.shard; i < cases * g_opts.nshards; i += g_opts.nshards) {
+        if (i <= g_skip) continue;
+        if (!g_coop && ((i / g_opts.nshards) % 64) == 0) emit(Json().str("t", "progress").num("i", i).num("stride", 64L * g_opts.nshards).done());
+        uint64_t seed = g_opts.seed * 1000003ull + (uint64_t)i;
+        Rng r(seed);
+        int nprod = r.range(1, 3), npush = r.range(1, 3);
+        // free-running storm rounds: many pushes per producer, so that two producers really are inside push() at the same time
+        // (the cooperative scheduler only switches at hooks; a window between two un-hooked instructions needs real parallelism)
+        if (!g_coop && ((i / g_opts.nshards) % 256) == 3) { nprod = 3; npush = (int)g_opts.num("storm", 2000); }
+        one(i, seed, nprod, npush, (i % 3) == 0 ? 1 : 0, nullptr);
     }
 }
 
@@ -365,7 +417,7 @@ static void run_c11mt(long cases) {
 int main(int argc, char** argv) {
     g_opts = parse_opts(argc, argv);
     install_handlers();
-    g_coop = g_opts.mode != "free";
+    g_coop = g_opts.mode != "free";   // "dfs" = cooperative scheduler in systematic mode
     g_spin_max = (int)g_opts.num("spin", 50);
     std::string prop = g_opts.get("prop", "c12");
     g_skip = g_opts.num("skip", -1);
